@@ -4,7 +4,8 @@ THEOREM_MODULES = ["Hcl.Theorems.C14", "Hcl.Tie.PinsIo"]
 THEOREMS = {"Hcl.Theorems.C14": ["C14_file", "C14_file_builtin", "C14_line", "C14_region", "C14_region_y86",
                                  "C14_preamble_ends_line", "C14_preamble_utf8",
                                  "Io.lookupIndex_spec", "Io.lineNumberAndBounds_user", "Io.showRegion_line",
-                                 "Yo.validUtf8_boundary", "Yo.validUtf8_append", "C14_token_spans", "Lexer.lexStep_ok", "Lexer.handleConstant_pos"],
+                                 "Yo.validUtf8_boundary", "Yo.validUtf8_append", "C14_token_spans", "Lexer.lexStep_ok", "Lexer.handleConstant_pos",
+                                 "C14_expression_spans", "C14_expression_extent", "Parser.parseTier_spans", "Parser.parseExpr_spans"],
             "Hcl.Tie.PinsIo": ["Tie.PinsIo.pinMarkNewlines", "Tie.PinsIo.pinFilename", "Tie.PinsIo.pinLineNumberAndBounds", "Tie.PinsIo.pinShowRegion"]}
 
 RULE = ("S-REGION: FileContents::new_from_data + show_region / line_number_and_bounds / range of the real code on small "
@@ -17,6 +18,9 @@ RULE = ("S-REGION: FileContents::new_from_data + show_region / line_number_and_b
         "parse_y86_hcl + Error::format_for_contents with the real preamble; every located region of the rendered text must "
         "be what the model renders for a span the error carries (correspondence: errors.rs hands its spans to show_region "
         "unchanged), the planted span must be shown exactly as Spec.region renders it and no region may name <builtin> (oracle). "
+        "S-PARSE (as in C11): the spanned tree the real expression parser builds for generated expressions (all operator pairs, "
+        "unary/in placements, random trees; operands in parentheses at either edge) must be the spanned tree of the Lean parser "
+        "model, whose spans are proved to be nested byte ranges of the text (C14_expression_spans). "
         "non-trivial = cases with a specified span / a rejected program; distinct = distinct requests.")
 
 
@@ -56,7 +60,18 @@ def judge_diag(req, impl, model, spec):
     return {"corr": impl == model, "oracle": ok, "what": what, "key": req, "cats": cats}
 
 
+def judge_parse(req, impl, model, spec):
+    from props import C11
+    r = C11.judge(req, impl, model, spec)
+    # what C14 asks of this stream is the spans (correspondence with the model); the grouping oracle is C11's
+    if not impl.startswith("PANIC"):
+        r["oracle"] = True
+        r["what"] = ""
+    return r
+
+
 def streams(tier, seed):
     q = tier == "quick"
     return [{"name": "region", "stream": "region", "count": 20000 if q else 1500000, "judge": judge_region},
-            {"name": "diag", "stream": "diag", "count": 3000 if q else 200000, "judge": judge_diag}]
+            {"name": "diag", "stream": "diag", "count": 3000 if q else 200000, "judge": judge_diag},
+            {"name": "parse", "stream": "parse", "count": 2000 if q else 100000, "judge": judge_parse}]
